@@ -4,23 +4,39 @@ Guards: True | False | z3 BoolRef."""
 import z3
 from llparse import *
 
+from z3 import z3core as _C
+_ctx = z3.main_ctx(); _cr = _ctx.ref(); _A2 = z3.Ast * 2
+_BS = _C.Z3_mk_bool_sort(_cr)
+def _B(ast): return z3.BoolRef(ast, _ctx)
 def gand(a, b):
     if a is True: return b
     if b is True: return a
     if a is False or b is False: return False
     if a is b: return a
-    return z3.And(a, b)
+    return _B(_C.Z3_mk_and(_cr, 2, _A2(a.ast, b.ast)))
 def gor(a, b):
     if a is False: return b
     if b is False: return a
     if a is True or b is True: return True
     if a is b: return a
-    return z3.Or(a, b)
+    return _B(_C.Z3_mk_or(_cr, 2, _A2(a.ast, b.ast)))
 def gnot(a):
     if a is True: return False
     if a is False: return True
-    if z3.is_not(a): return a.arg(0)
-    return z3.Not(a)
+    return _B(_C.Z3_mk_not(_cr, a.ast))
+_bvs = {}; _bvv = {}
+def bvsort(w):
+    r = _bvs.get(w)
+    if r is None: r = _bvs[w] = _C.Z3_mk_bv_sort(_cr, w)
+    return r
+def bvval(v, w):
+    k = (v, w); r = _bvv.get(k)
+    if r is None:
+        r = z3.BitVecVal(v, w)
+        if len(_bvv) < 200000: _bvv[k] = r
+    return r
+def fIf(c, a, b):
+    return z3.BitVecRef(_C.Z3_mk_ite(_cr, c.ast, a.ast, b.ast), _ctx)
 def gz(a):
     return z3.BoolVal(a) if isinstance(a, bool) else a
 def fold(b):
@@ -35,10 +51,9 @@ class Namer:
     def __init__(s): s.defs = []; s.n = 0; s.on = True
     def __call__(s, g):
         if isinstance(g, bool) or not s.on: return g
-        if g.num_args() == 0: return g
-        if z3.is_not(g) and g.arg(0).num_args() == 0: return g
+        if _C.Z3_get_app_num_args(_cr, g.ast) == 0: return g
         s.n += 1
-        b = z3.Bool('g!%d' % s.n); s.defs.append(b == g); return b
+        b = _B(_C.Z3_mk_const(_cr, _C.Z3_mk_int_symbol(_cr, s.n), _BS)); s.defs.append(_B(_C.Z3_mk_eq(_cr, b.ast, g.ast))); return b
 name = Namer()
 
 class GV:
@@ -47,9 +62,9 @@ class GV:
     def __init__(s, alts, w): s.alts = alts; s.w = w; s._z = None
     def z(s):
         if s._z is None:
-            e = z3.BitVecVal(s.alts[-1][1], s.w)
+            e = bvval(s.alts[-1][1], s.w)
             for g, v in reversed(s.alts[:-1]):
-                e = z3.If(g, z3.BitVecVal(v, s.w), e)
+                e = fIf(g, bvval(v, s.w), e)
             s._z = e
         return s._z
     def __repr__(s): return 'GV%d{%s}' % (s.w, ','.join('%#x' % v for _, v in s.alts))
@@ -57,7 +72,7 @@ class GV:
 def mask(v, w): return v & ((1 << w) - 1)
 def tosigned(v, w): return v - (1 << w) if v >> (w - 1) else v
 def Z(v, w):
-    if isinstance(v, int): return z3.BitVecVal(v, w)
+    if isinstance(v, int): return bvval(v, w)
     if isinstance(v, GV): return v.z()
     return v
 def alts_of(v):
@@ -97,7 +112,7 @@ def ite(g, a, b, w):
         if isinstance(a, int) and isinstance(b, int) and a == b: return a
         ng = gnot(g)
         return mk_gv([(gand(g, x), v) for x, v in aa] + [(gand(ng, x), v) for x, v in bb], w)
-    return z3.If(g, Z(a, w), Z(b, w))
+    return fIf(g, Z(a, w), Z(b, w))
 
 def _cbin(op, x, y, w):
     if op == 'add': return mask(x + y, w)
